@@ -7,6 +7,7 @@ comparison is the `v.length < threshold` test inside `verifyAux`).
 -/
 import InToto.Proofs.PipeThresholds
 import InToto.Proofs.PipeSigs
+import InToto.Generated.Facts
 
 namespace InToto.C02
 open InToto InToto.Schema InToto.Metadata InToto.Verify InToto.PipeProofs
@@ -84,5 +85,10 @@ theorem link_file_names :
 theorem garbage_ignored :
     (loadLinksForStep (lit% "s") [(lit% "s.00000000.link", lit% "not json"), (lit% "s.11111111.link", lit% "{"),
       (lit% "s.22222222.link", lit% "[1,2]")]).length = 0 := by decide
+
+/-- facts regenerated from the source on every run: the link file glob and the link name format the
+    loader model (`linkFileInfix`, `first8`) was written for -/
+theorem facts_link_formats : Generated.constLinkGlobFormat = lit% "%s.????????.link" ∧
+    Generated.constLinkNameFormat = lit% "%s.%.8s.link" := by decide
 
 end InToto.C02
